@@ -222,6 +222,12 @@ func (s *Stream) read() bool {
 		return false
 	}
 	buf := s.readBuf()
+	if len(buf) <= 1 {
+		// no room left for data and the sentinel (in-place unescaping shortens
+		// the buffer by odd amounts): grow before reading.
+		s.filledBuffer = true
+		buf = s.readBuf()
+	}
 	last := len(buf) - 1
 	buf[last] = nul
 	var (
